@@ -365,6 +365,7 @@ func (st *vfC09RuleState) String() string {
 // rateLimited, and a reload keeps the state of unchanged rules.
 func TestVerifC09FilterRules(t *testing.T) {
 	vf := vfBegin(t, "C09")
+	vf.maxSample = 2
 	defer vf.End()
 	rapid.Check(t, func(rt *rapid.T) {
 		spec := vfC09GenFilterSpec(rt)
@@ -551,6 +552,7 @@ var vfC09WaitTag = regexp.MustCompile(`rateLimiter: waiting duration: ([^ |]+)`)
 // catch-all rule behind the waiting rule is never charged for requests the first rule decided.
 func TestVerifC09FilterWait(t *testing.T) {
 	vf := vfBegin(t, "C09")
+	vf.maxSample = 2
 	defer vf.End()
 	rapid.Check(t, func(rt *rapid.T) {
 		P := time.Duration(rapid.SampledFrom([]int{2, 3, 5}).Draw(rt, "periodMs")) * time.Millisecond
